@@ -41,6 +41,9 @@ def switch (sp : AnalyzerSpec) (cfg pre changed post : List Nat) (newInput : Str
   "|".intercalate (s!"surv={showNatList surv}" :: postReads spec fresh post s' [])
 
 def handle (args : List String) : String :=
+  match Nitime.OneTime.Sessions.handleSession args with
+  | some r => r
+  | none =>
   match args with
   | ["retarget", cls, cfg, pre, post] =>
     match findSpec? cls, parseNatList? cfg, parseNatList? pre, parseNatList? post with
@@ -60,6 +63,7 @@ def handle (args : List String) : String :=
   | ["slice", cls, cfg, pre, _key] =>
     handleSlice cls cfg pre
   | ["slice", cls, cfg, pre] => handleSlice cls cfg pre
+  | ["names", cls] => C13.handleCore ["names", cls]
   | _ => "bad-op"
 where
   handleSlice (cls cfg pre : String) : String :=
